@@ -85,6 +85,15 @@ pub fn obs(t: usize, k: usize, len: usize, pos: usize) -> (usize, usize, bool, u
     (n, if hit { pos } else { usize::MAX }, hit || n == 0, g().t[t].destroyed, g().t[t].out)
 }
 
+/// Same, for the leak-tolerant contracts (C06/C07) that do not prescribe a position: `aligned`
+/// is true alignment of the visible copy to a slot boundary.
+pub fn obs_any(t: usize, k: usize, len: usize) -> (usize, bool, usize, usize) {
+    let (n, rel) = tok_visible_in(t, k, len);
+    let e = g().esz;
+    let aligned = n == 0 || e == 0 || rel % e == 0;
+    (n, aligned, g().t[t].destroyed, g().t[t].out)
+}
+
 /// Arithmetic lemma injection (sound: proved for all naturals by the Verus lemma `lemma_mul_mono`,
 /// and no product overflows for a, b <= 2^21, esz <= 2^8): multiplication by the element size is
 /// strictly monotone. It hands the SAT back end the order facts it cannot derive cheaply.
